@@ -38,16 +38,15 @@ int moveToImageExtension(fitsfile* fits, const char* name, int* status){
 	for (int hdu = 1; ; hdu++) {
 		int type = 0;
 		if (fits_movabs_hdu(fits, hdu, &type, status)) {
-			//failing to read the file is an error; anything else means that
-			//there are no more HDUs, as it does for fits_movnam_hdu
-			if (*status != READ_ERROR && *status != SEEK_ERROR
-			    && *status != MEMORY_ALLOCATION) {
-				int tstatus = 0;
-				fits_clear_errmark();
-				fits_movabs_hdu(fits, start, &type, &tstatus);
-				*status = BAD_HDU_NUM;
-			}
-			return (*status);
+			//there are no more HDUs. As for fits_movnam_hdu this includes
+			//every failure to read a further header: less than one record
+			//of stray data behind the last HDU shows up as a read error,
+			//and callers which must tell the end of the file from a file
+			//that could not be read compare with the size of the file
+			int tstatus = 0;
+			fits_clear_errmark();
+			fits_movabs_hdu(fits, start, &type, &tstatus);
+			return (*status = BAD_HDU_NUM);
 		}
 		//CFITSIO derives the position of the next HDU from the header of
 		//this one without insisting on a non-negative size (GCOUNT and
